@@ -52,13 +52,13 @@ func preRootSet(root string, s *spec.Spec) map[string]bool {
 }
 
 type faultCase struct {
-	tc    topoCase
-	label string
-	key   string            // task the fault is aimed at ("" = none)
-	opts  map[string]string // behaviour options for that task
-	crash *gen.CrashPoint
-	kline int
-	cfg   Cfg
+	tc      topoCase
+	label   string
+	key     string            // task the fault is aimed at ("" = none)
+	opts    map[string]string // behaviour options for that task
+	crash   *gen.CrashPoint
+	kline   int
+	cfg     Cfg
 	rerun   bool // after the fault: run again in place without cleanup and judge the state after that
 	visible bool // kill the group the instant the target task's final path becomes visible
 	xdev    bool // the absolute output area is on another file system
@@ -527,4 +527,3 @@ func faultClass(label string) string {
 	}
 	return label
 }
-
